@@ -10,6 +10,11 @@ NOTE = ("Trusted: Lean 4.33 kernel; axioms propext/Classical.choice/Quot.sound o
         "-O2 build (thorough: also -O0 and -march=native, all alignments). Constants and README tables are regenerated from "
         "/repo on every run (tools/gen.py). Clauses not yet carried by a theorem are listed in the evidence under not_yet_proved.")
 CLAIMED = {
+ "C08": ("Refinement theorem: for every finite history of add/remove/clear/bulk-add/remove-range from the empty bitmap the "
+         "membership answers, every change report and the cardinality counter equal those of a mathematical set; the "
+         "container type is proved unobservable for add/remove. The real varintBitmap is driven through random histories "
+         "(incl. set algebra, ranges > 4096 on non-empty sets, serialise/deserialise) and compared after every step with "
+         "the model and a 65536-bit reference set", "Lean 4 refinement proof over histories + differential histories vs reference set"),
  "C09": ("Refinement theorem: the slot-level get/set of varintPacked.h are bit-field extract/insert of the slot array read as "
          "one little-endian number, for every slot width, value width and index with an element spanning at most two slots; "
          "hence read-after-write, isolation of every other element and of every storage bit, slots touched; lower-bound "
